@@ -341,6 +341,12 @@ static void run_c19(long cases) {
             else if (w == 7) { t = "[12345::1]"; cls = "v6-group-range"; }
             else if (w == 8) { t = "[::g]"; cls = "v6-nonhex"; }
             else { t = "[]"; cls = "v6-empty"; }
+            if (r.chance(1, 4)) {   // text around the brackets
+                static const char* PRE[] = {"x", "1.2.3.4", " ", ":", "http://", "]"};
+                static const char* POST[] = {"8080", "x", "]", " "};
+                if (r.chance(1, 2)) { t = std::string(r.pick(PRE)) + "[::1]"; cls = "v6-text-before-bracket"; }
+                else { t = std::string("[::1]") + r.pick(POST); cls = "v6-text-after-bracket"; }
+            }
             if (r.chance(1, 2)) t += ":" + std::to_string(r.range(1, 65535));
             c19_expect_reject(t, cls);
         } else if (kind == 8) {  // empty / colon-only
@@ -518,6 +524,7 @@ static void c18_invalid(Rng& r) {
     case 10: text = good + "; charset="; cls = "param-equals-then-end"; break;
     default: text = good + "; q=" + std::to_string(r.range(2, 9)) + (r.chance(1, 2) ? ".5" : ""); cls = "q-out-of-range"; break;
     }
+    if (w == 0 && r.chance(1, 2)) { text = std::string(r.chance(1, 2) ? "\n" : "\x0a") + "/" + (r.chance(1, 2) ? "\n" : "plain"); cls = "control-char-for-star"; }
     BEGIN("mime-invalid", cls, text);
     Fence& f = fence_slot(); f.place(text.data(), text.size());
     Thrown t = guarded([&] { (void)Mime::MediaType::fromRaw(f.ptr, f.len); });
@@ -557,6 +564,24 @@ static void c18_mutant(Rng& r) {
     g_distinct.add("mm:" + std::to_string(fnv(text) % 100000));
     end_case();
 }
+static void c18_nearmiss(Rng& r) {
+    // a known subtype with its '-' or '+' replaced by the control character that differs only in bit 0x20
+    static const struct { const char* text; Mime::Subtype sub; } NM[] = {
+        {"octet-stream", Mime::Subtype::OctetStream}, {"schema+json", Mime::Subtype::JsonSchema}, {"schema-instance+json", Mime::Subtype::JsonSchemaInstance},
+        {"x-www-form-urlencoded", Mime::Subtype::FormUrlEncoded}, {"form-data", Mime::Subtype::FormData}};
+    auto& e = NM[r.below(5)];
+    std::string sub = e.text;
+    std::vector<size_t> pos; for (size_t i = 0; i < sub.size(); i++) if (sub[i] == '-' || sub[i] == '+') pos.push_back(i);
+    size_t p = r.pick(pos); sub[p] = (char)(sub[p] & ~0x20);
+    std::string text = "application/" + sub;
+    BEGIN("mime-invalid", "control-char-for-punctuation", text);
+    Fence& f = fence_slot(); f.place(text.data(), text.size());
+    Mime::MediaType got; Thrown t = guarded([&] { got = Mime::MediaType::fromRaw(f.ptr, f.len); });
+    if (!t.any && got.sub() == e.sub) viol("c18:reject:control-char-for-punctuation:recognised", "'application/" + hex(sub) + "' (hex) parsed as the known subtype " + e.text);
+    g_distinct.add("nm:" + std::string(e.text) + ":" + std::to_string(p));
+    count("mime_nearmiss");
+    end_case();
+}
 static void run_c18(long cases) {
     Rng& r = g_rng;
     // full product of known types x subtypes x suffixes (sharded)
@@ -574,7 +599,7 @@ static void run_c18(long cases) {
         if (k <= 2) { MimeIntent m = gen_mime(r, false); c18_built(m, m.params.empty() ? (m.q >= 0 ? "q" : "plain") : "params"); }
         else if (k == 3) { MimeIntent m = gen_mime(r, true); bool qn = false; for (auto& p : m.params) if (p.first[0] == 'q' || p.first[0] == 'Q') qn = true; c18_built(m, qn ? "q-named-param" : (m.params.empty() ? "plain" : "params")); }
         else if (k <= 6) c18_text(r);
-        else if (k == 7) c18_invalid(r);
+        else if (k == 7) { if (r.chance(1, 5)) c18_nearmiss(r); else c18_invalid(r); }
         else c18_mutant(r);
     }
 }
@@ -862,8 +887,8 @@ static void c16_typed(Rng& r) {
         break; }
     case 6: { int w = r.range(0, 2); std::string v = w == 0 ? "Basic " + ref_b64(rnd_token(r, 0, 12) + ":" + rnd_token(r, 0, 12)) : w == 1 ? "Bearer " + rnd_token(r, 1, 40) : rnd_value(r, 1, 40, true);
         c16_rt<Authorization>("Authorization", w == 0 ? "basic" : w == 1 ? "bearer" : "other", Authorization(v), [](const Authorization& a, const Authorization& b, std::string& why) { why = "value"; return a.value() == b.value() && a.getMethod() == b.getMethod(); }); break; }
-    case 7: { int w = r.range(0, 5); long s = w == 0 ? 0 : w == 1 ? 951782400 + r.range(-2, 2) * 86400L + r.range(0, 86399) : w == 2 ? 2147483647L + r.range(-3, 3) : w == 3 ? 1709164800 /*2024-02-29*/ + r.range(0, 86399) : (long)r.below(4200000000ull);
-        std::string cls = w == 0 ? "epoch" : w == 1 ? "leap-2000" : w == 2 ? "y2038" : w == 3 ? "leap-2024" : "any";
+    case 7: { int w = r.range(0, 6); long s = w == 6 ? (long)(r.range(1, 130) * 31556952L) + r.range(-4, 4) * 86400L + r.range(0, 86399) /* around a New Year */ : w == 0 ? 0 : w == 1 ? 951782400 + r.range(-2, 2) * 86400L + r.range(0, 86399) : w == 2 ? 2147483647L + r.range(-3, 3) : w == 3 ? 1709164800 /*2024-02-29*/ + r.range(0, 86399) : (long)r.below(4200000000ull);
+        std::string cls = w == 6 ? "around-new-year" : w == 0 ? "epoch" : w == 1 ? "leap-2000" : w == 2 ? "y2038" : w == 3 ? "leap-2024" : "any";
         c16_rt<Date>("Date", cls, Date(FullDate(std::chrono::system_clock::time_point(std::chrono::seconds(s)))), [](const Date& a, const Date& b, std::string& why) { why = "time point"; return a.fullDate().date() == b.fullDate().date(); }); break; }
     case 8: { int w = r.range(0, 2); std::string h; std::string cls;
         if (w == 0) { h = rnd_token(r, 1, 10, "abcdefghijklmnopqrstuvwxyz0123456789-") + "." + rnd_token(r, 2, 3, "abcdefghijklmnopqrstuvwxyz"); cls = "name"; }
@@ -914,7 +939,7 @@ static void c16_lookup(Rng& r) {
         Hd h;
         if (r.chance(1, 3)) { auto p = registered_header(r); h.name = p.first; h.value = p.second; h.registered = true; }
         else {
-            h.name = "X-" + rnd_token(r, 1, 10, "abcdefghijklmnopqrstuvwxyzABCDEFGHIJKLMNOPQRSTUVWXYZ0123456789-_");
+            h.name = "X-" + rnd_token(r, 1, r.chance(1, 4) ? 70 : 10, "abcdefghijklmnopqrstuvwxyzABCDEFGHIJKLMNOPQRSTUVWXYZ0123456789-_");
             int len = r.range(0, 30);
             for (int k = 0; k < len; k++) { char c = (char)r.below(256); if (c == '\n' || c == '\r') c = r.chance(1, 2) ? '\t' : 'x'; h.value += c; }
             // no leading/trailing blanks: optional whitespace around a value is not "value bytes"
